@@ -27,6 +27,19 @@ CLAIMED = {
           "5 (C10), 3.4, 3.6"),
 }
 
+CLAIMED.update({
+  "C12": ("fault_enumeration",
+          "deterministic simulation with fault injection: every model-call position inside the statistics computation gets a failure, in both build profiles; failing and under-determined fits generated around the N = M+P boundary",
+          "fit_with_statistics over seeded scenarios with N-(M+P) in {-3..+3, large}, weights on/off, f32/f64, both build profiles (overflow checks on and off, separate worker binaries). A tap twin locates the optimizer's last model call; every model call after it (P derivative calls and two evaluations) is re-executed with a transient and a persistent failure. Checked: never panics; N <= M+P => Err; failed fit => Err; model failure inside the statistics => Err; Err carries the problem; for Ok: N > M+P, the reported weighted residuals are W(y - Phi_ref(alpha_hat) c_hat) of the final state within a forward-error bound, reduced chi2 = ||r||^2/(N-M-P), standard error = sqrt(chi2). The three Err clauses and the residual consistency are what the simulation decides; the chi2/sigma arithmetic rides along.",
+          "Trusted: tap twin equals the production fit (checked per run through the model-call logs).",
+          "5 (C12)"),
+  "C17": ("fault_enumeration",
+          "deterministic simulation with fault injection on the closure seam: seeded call histories on bare builder-made models against a reference state machine, every (closure, wrong output length) pair enumerated",
+          "Seeded histories of set_params (right and wrong lengths), eval and eval_partial_deriv (in- and out-of-range indices) on models made by SeparableModelBuilder whose function and derivative closures return a wrong-length vector (empty, shorter, longer, doubled) at a seeded call index; for each seeded model every (closure, length) pair is executed. Reference model: the last accepted parameter vector. Checked: wrong parameter count => IncorrectParameterCount{expected,actual} and params()/all later evaluations bitwise unchanged; index >= P => DerivativeIndexOutOfBounds{index} without calling user code; wrong-length output => UnexpectedFunctionOutput naming N and a length actually injected; successful results are N x M and bitwise equal to the user functions at the accepted parameters; nothing panics.",
+          "Trusted: refmath (the closures and the oracle share the pure function definitions).",
+          "5 (C17)"),
+})
+
 NOT_APPLICABLE = {
   "C01": "Optimality of the coefficients for given (Phi, W, y, eps) is a pure linear-algebra relation over inputs; no schedule, fault, clock or interleaving occurs in it (the 'at every alpha in effect' part is C10). Input generation alone would be property-based testing, not simulation.",
   "C03": "The Kaufman Jacobian formula is a relation over (model, alpha, data, weights) at one state; its only fault clause (failed derivative => no Jacobian) is decided under C09 and C11.",
